@@ -692,4 +692,54 @@ def SRegs.repr (s : SRegs) : Regs := ⟨s.u.map ofNat, s.i.map BigInt.ofInt⟩
 /-- every register is canonical -/
 def Regs.Canon (r : Regs) : Prop := (∀ a ∈ r.u, NB.Canon a) ∧ (∀ x ∈ r.i, x.Canon)
 
+/-! ## API-coverage additions (C04): `PartialOrd`, and the generator impls of src/biguint/arbitrary.rs,
+    src/bigint/arbitrary.rs -/
+
+/-- `PartialOrd for BigUint`: `partial_cmp = Some(self.cmp(other))` -/
+def BigUint.partialCmp (a b : List Nat) : Option Ordering := some (BigUint.cmp a b)
+
+/-- `PartialOrd for BigInt`: `partial_cmp = Some(self.cmp(other))` -/
+def BigInt.partialCmp (a b : BigInt) : Option Ordering := some (BigInt.cmp a b)
+
+/-- core's provided `PartialOrd::{lt, le, gt, ge}` (`matches!(self.partial_cmp(other), Some(Less))` …) -/
+def pLt : Option Ordering → Bool | some .lt => true | _ => false
+def pLe : Option Ordering → Bool | some .lt => true | some .eq => true | _ => false
+def pGt : Option Ordering → Bool | some .gt => true | _ => false
+def pGe : Option Ordering → Bool | some .gt => true | some .eq => true | _ => false
+
+/-- number of bytes of one `u64` element (`mem::size_of::<u64>()`; a property of the digit type) -/
+def u64Bytes : Nat := 8
+
+/-- `u64::from_le_bytes` of a buffer that `Unstructured::fill_buffer` filled from the (possibly shorter) rest of
+    the data and padded with zeros: the little-endian value of the bytes that were there -/
+def leBytes : List Nat → Nat
+  | [] => 0
+  | b :: bs => b + 256 * leBytes bs
+
+/-- `Vec::<u64>::arbitrary(u)` = `u.arbitrary_iter()?.collect()` and `arbitrary_take_rest` =
+    `u.arbitrary_take_rest_iter()?.collect()` of the `arbitrary` crate (1.4): both iterators read one
+    continuation byte (`u8 & 1 == 1`; an exhausted input reads as 0, i.e. stop), then one zero-padded
+    little-endian `u64`.  Returns the elements and the unread rest.  `fuel` bounds the number of elements
+    (each consumes at least the continuation byte; callers pass `bytes.length + 1`). -/
+def arbVecU64 : Nat → List Nat → List Nat × List Nat
+  | 0, bs => ([], bs)
+  | _ + 1, [] => ([], [])
+  | fuel + 1, b :: rest =>
+    if b % 2 = 1 then
+      let r := arbVecU64 fuel (rest.drop u64Bytes)
+      (leBytes (rest.take u64Bytes) :: r.1, r.2)
+    else ([], rest)
+
+/-- `arbitrary::Arbitrary for BigUint` (`arbitrary` and `arbitrary_take_rest` have the same body shape):
+    `biguint_from_vec(Vec::<BigDigit>::arbitrary(u)?)` -/
+def BigUint.arbitrary (bytes : List Nat) : List Nat :=
+  BigUint.fromVec (arbVecU64 (bytes.length + 1) bytes).1
+
+/-- `arbitrary::Arbitrary for BigInt`: `bool::arbitrary` (one byte, 0 when exhausted, `& 1 == 1`) chooses
+    `Plus` / `Minus`, then `Self::from_biguint(sign, BigUint::arbitrary(u)?)` -/
+def BigInt.arbitrary (bytes : List Nat) : BigInt :=
+  let positive := decide (bytes.headD 0 % 2 = 1)
+  let sign : Sign := if positive then .plus else .minus
+  BigInt.fromBiguint sign (BigUint.arbitrary (bytes.drop 1))
+
 end NB.Core
